@@ -337,10 +337,7 @@ impl FieldA {
 
 /// `debversion::Version` that was written, in the format of `rel.rs::enc_version`
 fn version_view(v: &VersionA) -> String {
-    let (up, rev) = match v.body.rfind('-') {
-        Some(i) if i >= 1 && i + 1 < v.body.len() => (v.body[..i].to_string(), Some(v.body[i + 1..].to_string())),
-        _ => (v.body.clone(), None),
-    };
+    let (up, rev) = split_rev(&v.body);
     let ep: Option<u64> = v.epoch.as_ref().map(|e| e.parse::<u64>().unwrap_or(u64::MAX));
     let disp = match ep {
         Some(e) => format!("{}:{}", e, v.body),
@@ -420,6 +417,26 @@ fn gap_ok(g: &str) -> bool {
 fn is_ident(s: &str) -> bool {
     !s.is_empty() && s.chars().all(|c| c.is_ascii_alphanumeric() || c == '-' || c == '.' || c == '+' || c == '~')
 }
+/// `[A-Za-z0-9+.~]+`: what a Debian revision may be
+fn is_rev(s: &str) -> bool {
+    !s.is_empty() && s.chars().all(|c| c.is_ascii_alphanumeric() || c == '+' || c == '.' || c == '~')
+}
+/// mirror of `RelSpec.splitRev`: split at the last hyphen when both sides are non-empty and the right
+/// side can be a revision (a ':' of a body with an epoch cannot)
+pub fn split_rev(body: &str) -> (String, Option<String>) {
+    match body.rfind('-') {
+        Some(i) if i >= 1 && is_rev(&body[i + 1..]) => (body[..i].to_string(), Some(body[i + 1..].to_string())),
+        _ => (body.to_string(), None),
+    }
+}
+/// mirror of the body part of `RelSpec.VersionA.ok`: an identifier; with an epoch, identifiers joined by ':'
+pub fn body_ok(has_epoch: bool, body: &str) -> bool {
+    if has_epoch {
+        body.split(':').all(is_ident)
+    } else {
+        is_ident(body)
+    }
+}
 fn bracket_ok(b: &Bracket) -> bool {
     gap_ok(&b.pre)
         && gap_ok(&b.post)
@@ -434,7 +451,7 @@ fn rel_ok(r: &RelA) -> bool {
                 && gap_ok(&v.g2)
                 && gap_ok(&v.g3)
                 && gap_ok(&v.g4)
-                && is_ident(&v.ver.body)
+                && body_ok(v.ver.epoch.is_some(), &v.ver.body)
                 && v.ver.epoch.as_ref().map_or(true, |e| {
                     !e.is_empty()
                         && e.chars().all(|c| c.is_ascii_digit())
@@ -524,6 +541,7 @@ pub struct Policy {
 const NAMES: [&str; 10] = ["a", "libc6", "python3-foo", "g++", "x.y~1", "0ad", "lib-a+b", "Z", "42", "7"];
 const ARCHS: [&str; 6] = ["amd64", "i386", "any", "linux-any", "hurd-i386", "all"];
 const BODIES: [&str; 9] = ["1", "2.3-4", "2.0~rc1+b2", "0", "1-2-3", "-1", "1-", "a-b.c", "1.2~~"];
+const COLON_BODIES: [&str; 6] = ["2:3", "2:3-4", "2-3:4", "1:2:3~rc1", "a:b-1", "0:0"];
 const EPOCHS: [&str; 5] = ["1", "0", "2", "01", "4294967295"];
 const OPS: [&str; 5] = ["ge", "le", "eq", "gt", "lt"];
 const PROFS: [&str; 5] = ["nocheck", "cross", "stage1", "pkg.foo.bar", "nodoc"];
@@ -600,7 +618,8 @@ pub fn make_rel(rng: &mut Rng, pol: &Policy, parts: &Parts) -> RelA {
             g3: pol.inner(rng, " "),
             ver: VersionA {
                 epoch: if parts.epoch { Some(rng.pick(&EPOCHS).to_string()) } else { None },
-                body: rng.pick(&BODIES).to_string(),
+                // with an epoch the upstream part may contain colons (Policy 5.6.12)
+                body: if parts.epoch && rng.chance(25) { rng.pick(&COLON_BODIES).to_string() } else { rng.pick(&BODIES).to_string() },
             },
             g4: if pol.wild && pol.layout != Layout::Canonical && pol.layout != Layout::Minimal && rng.chance(15) {
                 ws(rng)
